@@ -357,6 +357,9 @@ def evaluate(ck, d, tier, tag, only=None, jobs=16, deadline_s=0, selftest=None):
 def run(ck):
     d = os.path.join(B.BUILD, "c03", ck.tier)
     stats = evaluate(ck, d, ck.tier, ck.tier, jobs=16, deadline_s=2000 if ck.tier == "thorough" else 200)
+    if not os.environ.get("C03_KEEP"):
+        shutil.rmtree(d, ignore_errors=True)          # replay artefacts carry their own source
+    stats["evaluations"] = stats["functions"]        # one evaluation = one generated function compiled and called
     cov = vlib.enum_coverage(ck.parts, RULE, "functions_called", extra=stats)
     ck.finish(cov, assumptions=[
         "a spelling rejected by the strict type checker is not compared (counted in compile_rejected_spellings); a division "
